@@ -32,6 +32,9 @@ CORPUS = [
     (["s", "a", "b", "c", "t"], [("s", "a"), ("a", "b"), ("b", "a"), ("a", "c"), ("c", "a"), ("a", "t")],
      {("s", "a"): 2, ("a", "b"): 3, ("b", "a"): 3, ("a", "c"): 1, ("c", "a"): 1, ("a", "t"): 2}),
     (["s", "x", "y", "z"], [("s", "x"), ("s", "y"), ("s", "z")], {("s", "x"): 1, ("s", "y"): 2, ("s", "z"): 4}),
+    # the flow values 1, 2, 3 explain the two cycles and the exit via d with 3 light walks; ONE walk of weight 1 going round both cycles does too (optimum 2)
+    (["s", "a", "b", "c", "d", "t"], [("s", "a"), ("a", "b"), ("b", "a"), ("a", "c"), ("c", "a"), ("a", "d"), ("d", "t"), ("a", "t")],
+     {("s", "a"): 6, ("a", "b"): 2, ("b", "a"): 2, ("a", "c"): 3, ("c", "a"): 3, ("a", "d"): 1, ("d", "t"): 1, ("a", "t"): 5}),
 ]
 
 
@@ -52,7 +55,7 @@ def gen_cases(tier, seed):
         cases.append({"kind": "opt", "spec": I.spec_of(base), "mode": "edge", "cons": cons, "cov": 1.0, "ignore": [], "oo": None, "starts": [], "ends": []})
     for i, (nodes, edges, fl) in enumerate(CORPUS):
         base = {"nodes": nodes, "edges": edges, "flow": fl, "planted": [], "wt": "int", "mode": "edge"}
-        for oo in (None, OPTS[2], OPTS[5]):
+        for oo in (None, OPTS[2], OPTS[5], OPTS[8], OPTS[10]):
             cases.append({"kind": "opt", "spec": I.spec_of(base), "mode": "edge", "cons": [], "cov": 1.0, "ignore": [], "oo": oo, "starts": [], "ends": []})
         for c in (2, 10, 0.5, 0.1):
             cases.append({"kind": "scale", "spec": I.spec_of(base), "c": c})
@@ -94,6 +97,10 @@ def gen_cases(tier, seed):
                 if others:
                     pick = [e1, rng.choice(others)] + ([rng.choice(inner_)] if rng.random() < 0.3 else [])
                     c["cons"] = c["cons"] + gen.jl([list(dict.fromkeys(pick))]); c["crossing"] = True
+        if c["cons"] and not node and rng.random() < 0.35:
+            # a SUBSET constraint is a set: an edge listed more than once (e.g. the edge list of a walk that goes round a cycle twice) counts once
+            c["cons"] = [cc + [rng.choice(cc) for _ in range(rng.randint(1, 2))] for cc in c["cons"]]
+            c["dup"] = True
         if rng.random() < 0.2 and len(base["edges"]) >= 3:
             ign = I.pick_ignore(rng, base, 0.2)
             c["ignore"] = gen.jl(ign)
